@@ -588,53 +588,119 @@ class _TransInterp(_LayoutInterp):
 
 
 # =========================================================================== R32
-def r32_gridsib(repo, sink):
-    c = repo.cls("StructuredGrid")
+class _SibInterp(FinamInterp):
+    def __init__(self, repo):
+        super().__init__(repo)
+        self.gen = []
 
-    def getter(n):
+    def call_hook(self, fv, args, kwargs, node, mod):
+        if isinstance(fv, Closure) and getattr(fv.func, "name", "") in ("gen_points", "gen_cells"):
+            f = fv.func
+            bound = dict(zip(f.params, args))
+            bound.update(kwargs)
+            self.gen.append((f.name, bound))
+            return Sym(f.name, len(self.gen))
+        if isinstance(fv, Closure) and getattr(fv.func, "name", "") == "gen_node_centers":
+            return Sym("node_centers")
+        return super().call_hook(fv, args, kwargs, node, mod)
+
+    def sym_item(self, c, k, node):
+        if isinstance(c, Sym) and isinstance(k, Sym) and k.op == "slice" and k.args == (None, None, -1):
+            return Sym("rev", c)
+        if isinstance(c, Sym) and isinstance(k, Sym) and k.op == "slice":
+            return Sym("sl", c, k)
+        return super().sym_item(c, k, node)
+
+    def builtin(self, name, args, kwargs, node):
+        if name == "len" and isinstance(args[0], Sym):
+            return 7
+        return super().builtin(name, args, kwargs, node)
+
+
+def r32_gridsib(repo, sink):
+    """Sibling agreement by abstract evaluation of the StructuredGrid getters for every
+    layout: data_shape / data_axes / points / cells / cell_centers / data_points."""
+    import itertools
+    from ..absbase import Vec
+    c = repo.cls("StructuredGrid")
+    getters = {}
+    for n in ("points", "cells", "cell_centers", "data_shape", "data_axes"):
         g = repo.resolve(c, n, "getter")
         if g is None:
             raise AnalysisError(f"StructuredGrid.{n} not found")
-        return g
-
-    def kw(call, name):
-        return next((U(k.value) for k in call.keywords if k.arg == name), None)
-
-    pts, cells, cc = getter("points"), getter("cells"), getter("cell_centers")
-    calls_ = {}
-    for g, fn in ((pts, "gen_points"), (cc, "gen_points"), (cells, "gen_cells")):
-        cs = [x for x in calls(g.node, fn)]
-        if len(cs) != 1:
-            sink.unknown("R32", f"sibling:{g.name}", g, f"{g.name} does not call {fn} exactly once")
-            return
-        calls_[g.name] = cs[0]
-    orders = {n: kw(x, "order") for n, x in calls_.items()}
-    want = "point_order(self.order, self.axes_reversed)"
-    sink.check(len(set(orders.values())) == 1 and orders["points"] == want, "R32", "sibling:order", pts,
-               ok="points, cells and cell_centers are generated in the same point order",
-               bad=f"points / cells / cell_centers disagree on the point order: {orders}")
-    incs = {n: kw(calls_[n], "axes_increase") for n in ("points", "cell_centers")}
-    sink.check(incs["points"] == incs["cell_centers"] == "self.axes_increase", "R32", "sibling:axes_increase", pts,
-               ok="points and cell centres use the same axis directions", bad=f"axis directions differ: {incs}")
-    axes = {"points": kw(calls_["points"], "axes"), "cell_centers": kw(calls_["cell_centers"], "axes"), "cells": kw(calls_["cells"], "dims")}
-    sink.check(axes == {"points": "self.axes", "cell_centers": "self.cell_axes", "cells": "self.dims"}, "R32", "sibling:sources", pts,
-               ok="points from axes, centres from cell_axes, cells from dims", bad=f"generator inputs are {axes}")
-    ds, da = getter("data_shape"), getter("data_axes")
-    t_ds, t_da = U(ds.node), U(da.node)
-    ok = ("self.dims[::-1] if self.axes_reversed else self.dims" in t_ds and "self.data_location == Location.CELLS" in t_ds
-          and "range(self.dim)[::-1] if self.axes_reversed else range(self.dim)" in t_da and "self.data_location == Location.CELLS" in t_da
-          and "self.cell_axes if self.data_location == Location.CELLS else self.axes" in t_da
-          and "np.maximum(dims - 1, 1) if self.data_location == Location.CELLS else dims" in t_ds)
-    sink.check(ok, "R32", "sibling:data_shape-data_axes", ds,
-               ok="data_shape and data_axes reverse under the same condition and pick cells/points under the same data_location test",
-               bad="data_shape and data_axes no longer agree on axis reversal / data location")
-    ca = getter("cell_axes")
-    sink.check("(ax[:-1] + ax[1:]) / 2" in U(ca.node), "R32", "cell_axes-midpoints", ca, ok="cell axes are midpoints of neighbouring nodes",
-               bad="cell_axes is not the midpoint of neighbouring nodes")
+        getters[n] = g
     dp = repo.resolve(repo.cls("Grid"), "data_points", "getter")
-    t = U(dp.node)
-    sink.check("self.data_location == Location.POINTS" in t and "return self.points" in t and "return self.cell_centers" in t, "R32", "data_points", dp,
-               ok="data_points follows the current data_location", bad="data_points does not select points / cell centres by data_location")
+    flip = {"C": "F", "F": "C"}
+    worst = {}
+    cases = 0
+    for dim in (1, 2, 3):
+        for rev, order, loc in itertools.product((False, True), ("C", "F"), ("CELLS", "POINTS")):
+            for inc in itertools.product((True, False), repeat=dim):
+                cases += 1
+                dims = (5, 4, 1)[:dim] if dim == 3 else (5, 4)[:dim]
+                g = Obj(cls=c, label="grid")
+                ax = [Sym("ax", i) for i in range(dim)]
+                cax = [Sym("cax", i) for i in range(dim)]
+                g.fields.update(dims=dims, dim=dim, axes_reversed=rev, axes_increase=list(inc), order=order,
+                                data_location=Sym("enum", "Location", loc), axes=ax, cell_axes=cax)
+                tag = f"{dim}D order={order} axes_reversed={rev} axes_increase={list(inc)} location={loc}"
+                it = _SibInterp(repo)
+                try:
+                    shp = it.run(getters["data_shape"], [], self_obj=g)
+                    base = dims[::-1] if rev else dims
+                    want = tuple(max(d - 1, 1) for d in base) if loc == "CELLS" else tuple(base)
+                    if tuple(shp) != want:
+                        worst.setdefault("data_shape", f"{tag}: data_shape is {tuple(shp)}, must be {want}")
+                    dax = it.run(getters["data_axes"], [], self_obj=g)
+                    gs = list(range(dim))[::-1] if rev else list(range(dim))
+                    src = cax if loc == "CELLS" else ax
+                    want_ax = [src[k] if inc[k] else Sym("rev", src[k]) for k in gs]
+                    if list(dax) != want_ax:
+                        worst.setdefault("data_axes", f"{tag}: data_axes is {list(dax)!r}, must be {want_ax!r}")
+                    app = flip[order] if rev else order
+                    it.gen = []
+                    pts = it.run(getters["points"], [], self_obj=g)
+                    cls_ = it.run(getters["cells"], [], self_obj=g)
+                    ctr = it.run(getters["cell_centers"], [], self_obj=g)
+                    calls_ = {n: kw for n, kw in [(x[0] + str(i), x[1]) for i, x in enumerate(it.gen)]}
+                    gp = [kw for n, kw in it.gen if n == "gen_points"]
+                    gc = [kw for n, kw in it.gen if n == "gen_cells"]
+                    if len(gp) != 2 or len(gc) != 1:
+                        raise AnalysisError("points/cells/cell_centers do not call gen_points/gen_cells as expected")
+                    if gp[0].get("axes") != ax or gp[0].get("order") != app or list(gp[0].get("axes_increase") or []) != list(inc):
+                        worst.setdefault("points", f"{tag}: points generated with {gp[0]!r}; must use the grid axes, apparent order {app} and the axis directions")
+                    if gp[1].get("axes") != cax or gp[1].get("order") != app or list(gp[1].get("axes_increase") or []) != list(inc):
+                        worst.setdefault("cell_centers", f"{tag}: cell centres generated with {gp[1]!r}; must use the cell axes, apparent order {app} and the axis directions")
+                    if tuple(gc[0].get("dims")) != dims or gc[0].get("order") != app:
+                        worst.setdefault("cells", f"{tag}: cells generated with {gc[0]!r}; must use dims and apparent order {app}")
+                    g.fields["points"], g.fields["cell_centers"] = Sym("POINTS"), Sym("CENTERS")
+                    got = it.run(dp, [], self_obj=g)
+                    if got != (Sym("POINTS") if loc == "POINTS" else Sym("CENTERS")):
+                        worst.setdefault("data_points", f"{tag}: data_points returns {got!r}")
+                except Raised as r:
+                    worst.setdefault("raise", f"{tag}: raises {r.name}")
+                except Undecided as u:
+                    raise AnalysisError(f"StructuredGrid getters: undecidable {u}") from u
+    for n in ("data_shape", "data_axes", "points", "cell_centers", "cells", "data_points"):
+        sink.check(n not in worst, "R32", f"sibling:{n}", getters.get(n, dp),
+                   ok=f"{cases} layouts: {n} follows axis order, axis directions, memory order and data location",
+                   bad=worst.get(n, ""))
+    if "raise" in worst:
+        sink.bad("R32", "sibling:raises", getters["data_shape"], worst["raise"])
+    sink.floor("R32", "layouts", cases, 100)
+    ca = repo.resolve(c, "cell_axes", "getter")
+    it = _SibInterp(repo)
+    g = Obj(cls=c, label="grid")
+    g.fields.update(axes=[Sym("ax", 0)])
+    try:
+        got = it.run(ca, [], self_obj=g)
+        from ..absbase import same_value
+        a0 = Sym("ax", 0)
+        lo, hi = Sym("sl", a0, Sym("slice", None, -1, None)), Sym("sl", a0, Sym("slice", 1, None, None))
+        ok = isinstance(got, list) and len(got) == 1 and same_value(got[0], Sym("div", Sym("add", lo, hi), 2))
+        sink.check(ok, "R32", "cell_axes-midpoints", ca, ok="cell axes are the midpoints of neighbouring nodes", bad=f"cell_axes computes {got!r}, not (ax[:-1] + ax[1:]) / 2")
+    except (Raised, Undecided, AnalysisError) as exc:
+        sink.unknown("R32", "cell_axes-midpoints", ca, f"cell_axes outside vocabulary: {exc}")
     # both data_location setters validate against valid_locations
     n = 0
     for k in repo.subclasses(repo.cls("Grid")):
